@@ -41,23 +41,23 @@ func vpPrefix(kind int) (commit, tree, blob []byte, path string) {
 	w := zzvp.Root()
 	path = "f.txt"
 	zzvp.WriteFile(w+"/"+path, []byte("one\n"))
-	zzvp.Assume(zzvp.Run("add", path).Exit == 0)
+	vpOK(zzvp.Run("add", path))
 	if kind == 0 {
 		return nil, nil, vpBlobID([]byte("one\n")), path // fresh: nothing committed
 	}
-	zzvp.Assume(zzvp.Run("commit", "-m", "c1").Exit == 0)
+	vpOK(zzvp.Run("commit", "-m", "c1"))
 	commit, _, _ = vpBranch("main")
 	_, data, _ := vpReadObject(vpG(), commit)
 	tree = vpParseCommit(data).tree
 	blob = vpBlobID([]byte("one\n"))
 	if kind >= 2 {
-		zzvp.Assume(zzvp.Run("branch", "dev").Exit == 0)
+		vpOK(zzvp.Run("branch", "dev"))
 		zzvp.WriteFile(w+"/"+path, []byte("two\n"))
-		zzvp.Assume(zzvp.Run("add", path).Exit == 0)
-		zzvp.Assume(zzvp.Run("commit", "-m", "c2").Exit == 0)
+		vpOK(zzvp.Run("add", path))
+		vpOK(zzvp.Run("commit", "-m", "c2"))
 	}
 	if kind >= 3 {
-		zzvp.Assume(zzvp.Run("branch", "-r", "trunk").Exit == 0) // leaves zero-id entries in the journal
+		vpOK(zzvp.Run("branch", "-r", "trunk")) // leaves zero-id entries in the journal
 	}
 	return
 }
@@ -140,7 +140,7 @@ func VP_C03_Step() {
 		r = zzvp.Run("rm", []string{path, "nosuch"}[zzvp.Choose(2)])
 	case 10:
 		zzvp.WriteFile(zzvp.Root()+"/"+path, zzvp.Bytes("newc", 1, ""))
-		zzvp.Assume(zzvp.Run("add", path).Exit == 0)
+		vpOK(zzvp.Run("add", path))
 		r = zzvp.Run("commit", "-m", "next")
 	default:
 		r = zzvp.Run("config", "user.name", "Other")
